@@ -167,6 +167,9 @@ func (i *interpreter) branch(cond *smt.Term) bool {
 			return false
 		}
 	}
+	if n := len(i.guardDecLimit); n > 0 && len(p.decisions) >= i.guardDecLimit[n-1] {
+		panic(pathAbort{abGuardBudget, "guarded call exceeded its decision budget (loop forking on every iteration)"})
+	}
 	if len(p.decisions) >= i.eng.cfg.MaxDecisions {
 		panic(pathAbort{abBudget, fmt.Sprintf("decision budget %d exhausted", i.eng.cfg.MaxDecisions)})
 	}
@@ -253,6 +256,16 @@ func (i *interpreter) choose(n int) int {
 	p := i.p
 	if n == 1 {
 		return 0
+	}
+	if len(p.choices) == 0 && i.eng.firstOnly >= 0 && !p.replaying() {
+		// debugging aid: restrict the first finite choice (SYMGO_FIRST)
+		v := i.eng.firstOnly
+		if v >= n {
+			panic(pathAbort{abInfeasible, "SYMGO_FIRST out of range"})
+		}
+		p.decisions = append(p.decisions, Decision{Choice: true, Val: v})
+		p.choices = append(p.choices, v)
+		return v
 	}
 	if p.replaying() {
 		d := p.prefix[p.pos]
